@@ -58,7 +58,7 @@ def run_worker(configs, env_extra):
 
 
 def cross_process(h: Harness):
-    algos = ["gp", "rs", "hc", "opo"]
+    algos = ["gp", "gpc", "rs", "hc", "opo"]
     reps = ["tree", "tree-pi", "ge", "sge", "dsge", "stack"]
     seeds = [0, 7] if not h.thorough else [0, 7, 123, 2024]
     grammars = ["full", "plain"]
@@ -66,10 +66,12 @@ def cross_process(h: Harness):
     for a in algos:
         for r in reps:
             for gname in grammars:
-                if not h.thorough and gname == "plain" and a != "gp":
+                if not h.thorough and gname == "plain" and a not in ("gp",):
+                    continue
+                if a == "gpc" and gname == "plain":
                     continue
                 for s in seeds[: (1 if (a != "gp" and not h.thorough) else len(seeds))]:
-                    configs.append([a, r, gname, s, 30 if a == "gp" else 12])
+                    configs.append([a, r, gname, s, {"gp": 30, "gpc": 120}.get(a, 12)])
     envs = [{"PYTHONHASHSEED": "0", "C08_PAD": "0", "C08_IMPORT_ORDER": "a"},
             {"PYTHONHASHSEED": "1", "C08_PAD": "1000", "C08_IMPORT_ORDER": "b"},
             {"PYTHONHASHSEED": "4242", "C08_PAD": "123457", "C08_IMPORT_ORDER": "a"}]
